@@ -216,6 +216,27 @@ CLAIMED = {
              'not necessary); 9 profiles using @{user_share_dirs} are known findings.',
         technique='Lean 4 proof (alternation semantics of the nesting) + differential run + reference-parser expansion on every built profile',
         ref='8/C06'),
+    'C09': dict(
+        text='Lean 4 theorems about the model of the printer (one function per template) and of the parser (tokenizer, parseRule, '
+             'comma splitter, every new<Kind>): for ALL token lists made of atomic tokens and ALL paddings, the tokenizer returns '
+             'exactly the tokens (C09_tokenize_words, by induction), so alignment padding is layout only (C09_padding_is_layout); a '
+             'printed line of plain tokens followed by its comma comes back as one pre-parsed rule holding those tokens '
+             '(C09_line_to_tokens); whole-text round trips are decided by kernel evaluation over the COMPLETE regenerated value '
+             'tables (every capability name x qualifier x comment, every network domain x type, every ptrace/signal access x '
+             'signal, every exec transition on quoted and nested-alternation paths); each class where the unchanged code does not '
+             'round-trip is proved on its witness. Printer and parser models are run against Rule.String / Rules.String / ParseRules / '
+             'tokenizeRule / parseRule on generated valid rules with random paddings, formatted blocks, every shipped file and '
+             'damaged lines; the real code is searched for a valid rule, block or file (preamble + header) that does not come back, '
+             'and for a parse that depends on what was parsed before in the process.',
+        note='Trusted: Lean kernel; hand-written Render/Parse models tied by the differential run (sampling; 0 disagreements over every '
+             'shipped file); string-valued fields are covered by the token-level theorems plus sampling, table-valued fields '
+             'exhaustively; the paddings Format computes are taken from the real code and checked to be runs of spaces; the file-level '
+             'round trip (AppArmorProfileFile.String/Parse) and Format itself are searched on the real code, not modelled; nine '
+             'known classes (comment on bare keyword, no-new-privs marker, allow, mqueue without name, unix attr/opt, marker with '
+             'empty comment, paragraph ending in a brace, include <path with space>, `=` inside a value).',
+        technique='Lean 4 proof (tokenizer induction, padding invariance, comma splitter; kernel evaluation over complete value tables) + '
+                  'executable printer/parser models run against the Go code + round-trip search on the real code',
+        ref='8/C09'),
 }
 
 REASON_TODO = 'check not built yet in this round; no claim is made (see DESIGN.md section 13)'
